@@ -254,6 +254,8 @@ class PathEval:
                         self.vals[i.id] = v
                     if isinstance(key, tuple) and key and key[0] == "ptrcell":
                         self.events.append(Event(pos, "load", i, {"cell": key, "value": self.vals[i.id]}, self.mem))
+                    if "ld" in self.watch_ops:   # every load with the VALUE of its address
+                        self.events.append(Event(pos, "ld", i, {"addr": self.val(i.a[0]), "value": self.vals[i.id]}))
                 elif op == "store":
                     key = self._addr_key(i.a[1])
                     v = self.val(i.a[0])
@@ -282,6 +284,11 @@ class PathEval:
             g = self.vals.get(s)
             ins = f.insts[s]
             if g is not None and all(st[0] in ("p", "a") for st in ins.path):
+                return ("ptrcell", "mem", a_key(g))
+        if isinstance(s, int) and s >= f.nparams and f.insts[s].op == "phi" and s in self.vals:
+            # a pointer that walks (p = phi(start, p + 1)): the cell is the one its current value names
+            g = self.vals[s]
+            if any(l[0] in ("param", "alloc", "ret", "alloca") for l in g[0]):
                 return ("ptrcell", "mem", a_key(g))
         return P.term(f, o)
 
